@@ -38,7 +38,7 @@ struct Obs {
     unresolved: u64,
 }
 
-fn judge<Ctx: ScriptContext>(cx: Cx, frag: &Frag, world: &World, rep: &mut Report, case: u64, scfg: &SearchCfg, forge: Option<&dyn Fn(&mut Type)>) -> Vec<String>
+fn judge<Ctx: ScriptContext>(cx: Cx, frag: &Frag, world: &World, rep: &mut Report, case: u64, scfg: &SearchCfg, forge: Option<&dyn Fn(&mut Type)>, from_ast: &dyn Fn(&Frag) -> Option<Miniscript<Ctx::Key, Ctx>>) -> Vec<String>
 where
     Ctx::Key: ToPublicKey + FromStr + miniscript::FromStrKey,
     <Ctx::Key as FromStr>::Err: std::fmt::Display,
@@ -50,8 +50,21 @@ where
     let ms = match guarded(|| Miniscript::<Ctx::Key, Ctx>::from_str_with_validation_params(&s, &params)) {
         Ok(Ok(m)) => m,
         Ok(Err(_)) => {
-            rep.count(&format!("rejected:{}", cx.name()));
-            return vec![];
+            // the programmatic constructor has no parser in front of it: what it accepts is
+            // a fragment the library vouches for as well
+            let built = guarded(std::panic::AssertUnwindSafe(|| from_ast(frag)));
+            match built {
+                // from_ast alone does not apply the context's fragment rules (d: / or_i without
+                // MINIMALIF, foreign multisig): only what also validates is in the property's domain
+                Ok(Some(m)) if m.validate(&params).is_ok() => {
+                    rep.count("accepted-only-by-from_ast");
+                    m
+                }
+                _ => {
+                    rep.count(&format!("rejected:{}", cx.name()));
+                    return vec![];
+                }
+            }
         }
         Err(m) => {
             rep.count("from_str-panicked(judged-by-C11)");
@@ -391,7 +404,7 @@ fn controls(world: &World, rep: &mut Report, scfg: &SearchCfg) {
         ("pk_k claimed B and unit", Frag::PkK(k(2)), Box::new(|t: &mut Type| { t.corr.base = LBase::B; t.corr.unit = true }), "unit"),
     ];
     for (name, frag, forge, expect) in cases {
-        let fired = judge::<Segwitv0>(Cx::Segwitv0, &frag, world, rep, 0, scfg, Some(&*forge));
+        let fired = judge::<Segwitv0>(Cx::Segwitv0, &frag, world, rep, 0, scfg, Some(&*forge), &|_| None);
         if fired.iter().any(|f| f == expect) {
             rep.count("control-refuted");
         } else {
@@ -428,6 +441,10 @@ fn pool(slot: usize, cx: Cx, small: bool) -> Vec<Frag> {
         Frag::Alt(bx(Frag::Sha256(slot % crate::world::N_PRE))),
     ];
     if !small {
+        // the multisig flavour of the OTHER script version: must be refused, or else behave as typed
+        let foreign = if cx == Cx::Tap { Frag::SortedMulti(1, vec![k0, k1]) } else { Frag::SortedMultiA(1, vec![k0, k1]) };
+        let foreign2 = if cx == Cx::Tap { Frag::Multi(2, vec![k0, k1]) } else { Frag::MultiA(2, vec![k0, k1]) };
+        v.extend([foreign, foreign2]);
         v.extend([
             Frag::PkH(k1),
             Frag::Check(bx(Frag::PkH(k1))),
@@ -501,6 +518,20 @@ fn enumerated(cx: Cx) -> Vec<Frag> {
     out
 }
 
+/// Programmatic construction with the context's own key type.
+fn ast<Ctx: ScriptContext>(f: &Frag, world: &World) -> Option<Miniscript<Ctx::Key, Ctx>>
+where
+    Ctx::Key: FromStr
+        + miniscript::MiniscriptKey<
+            Sha256 = bitcoin::hashes::sha256::Hash,
+            Hash256 = miniscript::hash256::Hash,
+            Ripemd160 = bitcoin::hashes::ripemd160::Hash,
+            Hash160 = bitcoin::hashes::hash160::Hash,
+        >,
+{
+    crate::astbuild::build::<Ctx::Key, Ctx>(f, world, &|k: &crate::frag::KeyRef| Ctx::Key::from_str(&crate::frag::Names::key(world, k)).ok()).ok()
+}
+
 pub fn search_cfg(tier: Tier) -> SearchCfg {
     match tier {
         Tier::Quick => SearchCfg { max_steps: 60_000, max_vars: 30, max_results: usize::MAX },
@@ -537,10 +568,10 @@ pub fn run(cfg: &RunCfg, rep: &mut Report) {
             g.gen(want, budget)
         };
         match cx {
-            Cx::Bare => judge::<BareCtx>(cx, &frag, &world, rep, i, &scfg, None),
-            Cx::Legacy => judge::<Legacy>(cx, &frag, &world, rep, i, &scfg, None),
-            Cx::Segwitv0 => judge::<Segwitv0>(cx, &frag, &world, rep, i, &scfg, None),
-            Cx::Tap => judge::<Tap>(cx, &frag, &world, rep, i, &scfg, None),
+            Cx::Bare => judge::<BareCtx>(cx, &frag, &world, rep, i, &scfg, None, &|f| ast::<BareCtx>(f, &world)),
+            Cx::Legacy => judge::<Legacy>(cx, &frag, &world, rep, i, &scfg, None, &|f| ast::<Legacy>(f, &world)),
+            Cx::Segwitv0 => judge::<Segwitv0>(cx, &frag, &world, rep, i, &scfg, None, &|f| ast::<Segwitv0>(f, &world)),
+            Cx::Tap => judge::<Tap>(cx, &frag, &world, rep, i, &scfg, None, &|f| ast::<Tap>(f, &world)),
         };
         if rep.samples.len() < rep.max_samples && i % 499 == 0 {
             rep.sample(format!("[{}] {}", cx.name(), frag.to_string_with(&world)));
@@ -562,10 +593,10 @@ pub fn run(cfg: &RunCfg, rep: &mut Report) {
             }
             rep.count("enumerated-small-scope");
             match cx {
-                Cx::Bare => judge::<BareCtx>(cx, &frag, &world, rep, id, &scfg, None),
-                Cx::Legacy => judge::<Legacy>(cx, &frag, &world, rep, id, &scfg, None),
-                Cx::Segwitv0 => judge::<Segwitv0>(cx, &frag, &world, rep, id, &scfg, None),
-                Cx::Tap => judge::<Tap>(cx, &frag, &world, rep, id, &scfg, None),
+                Cx::Bare => judge::<BareCtx>(cx, &frag, &world, rep, id, &scfg, None, &|f| ast::<BareCtx>(f, &world)),
+                Cx::Legacy => judge::<Legacy>(cx, &frag, &world, rep, id, &scfg, None, &|f| ast::<Legacy>(f, &world)),
+                Cx::Segwitv0 => judge::<Segwitv0>(cx, &frag, &world, rep, id, &scfg, None, &|f| ast::<Segwitv0>(f, &world)),
+                Cx::Tap => judge::<Tap>(cx, &frag, &world, rep, id, &scfg, None, &|f| ast::<Tap>(f, &world)),
             };
         }
     }
